@@ -241,7 +241,7 @@ impl Prop for C18 {
         "C18"
     }
     fn cases(&self, tier: Tier) -> u64 {
-        tier.pick(600_000, 8_000_000)
+        tier.pick(2_000_000, 8_000_000)
     }
     fn strategy(&self, _tier: Tier) -> BoxedStrategy<Case> {
         (0u8..6)
